@@ -372,20 +372,31 @@ func init() {
 	}
 
 	// ---- canaries (guard self-test only) ----
-	add(&c02Entry{Name: "canary:alloc-claimed", Hidden: true, Run: func(_ int, d []byte) error {
+	add(&c02Entry{Name: "canary:alloc-claimed", Hidden: true, Variants: 2, Run: func(v int, d []byte) error {
 		if len(d) < 9 {
 			return errors.New("short")
 		}
 		n := binary.BigEndian.Uint64(d[1:9])
 		s := make([]uint64, n) // what a decoder trusting a claimed length would do
 		s[0], s[len(s)-1] = 1, 1
-		time.Sleep(30 * time.Millisecond) // ... and then spend some time filling it
+		if v == 0 {
+			time.Sleep(30 * time.Millisecond) // ... and then spend some time filling it
+		} // v == 1: dropped at once, invisible to any sampler; only the heap profile sees it
 		c02Sink = s
 		c02Sink = nil
 		return nil
 	}})
 	add(&c02Entry{Name: "canary:panic", Hidden: true, Run: c02CanaryPanic})
 	add(&c02Entry{Name: "canary:recurse", Hidden: true, Run: func(_ int, d []byte) error { return fmt.Errorf("%d", c02CanaryRecurse(1, d)) }})
+	add(&c02Entry{Name: "canary:spin", Hidden: true, Run: func(_ int, d []byte) error {
+		x := uint64(len(d))
+		for {
+			x = x*6364136223846793005 + 1442695040888963407
+			if x == 42 && len(d) == 99 {
+				return nil
+			}
+		}
+	}})
 	add(&c02Entry{Name: "canary:loop", Hidden: true, Run: func(_ int, d []byte) error {
 		for {
 			time.Sleep(200 * time.Millisecond)
